@@ -2,6 +2,7 @@ package main
 
 import (
 	"bufio"
+	"encoding/json"
 	"flag"
 	"fmt"
 	"math/rand"
@@ -363,6 +364,109 @@ func cmdReplaySession(args []string) error {
 			} else if _, err := in.RunTxn(rec, ops); err != nil {
 				return err
 			}
+		}
+	}
+	return nil
+}
+
+func init() {
+	register("reconn-cases", "connection loss scenarios (proxy cuts, black hole, cuts while reconnecting) on a real client with reconnect", cmdReconnCases)
+}
+
+func cmdReconnCases(args []string) error {
+	fs := flag.NewFlagSet("reconn-cases", flag.ExitOnError)
+	casesFile := fs.String("cases", "cases.ndjson", "one case per line")
+	out := fs.String("o", "trace.ndjson", "output trace")
+	stats := fs.String("stats", "", "per-case statistics")
+	schemaOut := fs.String("schema-out", "", "write the abstract schema here")
+	_ = fs.Parse(args)
+	s := recsess.ReconnSchema()
+	b, err := abs.Build(s, false)
+	if err != nil {
+		return err
+	}
+	if *schemaOut != "" {
+		if err := os.WriteFile(*schemaOut, s.JSON(), 0o644); err != nil {
+			return err
+		}
+	}
+	cf, err := os.Open(*casesFile)
+	if err != nil {
+		return err
+	}
+	defer cf.Close()
+	f, err := os.Create(*out)
+	if err != nil {
+		return err
+	}
+	defer f.Close()
+	w := bufio.NewWriter(f)
+	defer w.Flush()
+	rec := rectxn.NewRecorder(w)
+	dir, err := os.MkdirTemp("", "vh-sock")
+	if err != nil {
+		return err
+	}
+	defer os.RemoveAll(dir)
+	var sw *json.Encoder
+	if *stats != "" {
+		sf, err := os.Create(*stats)
+		if err != nil {
+			return err
+		}
+		defer sf.Close()
+		sw = json.NewEncoder(sf)
+	}
+	tok := abs.NewTokens()
+	dec := json.NewDecoder(cf)
+	for dec.More() {
+		var c recsess.ReconnCase
+		if err := dec.Decode(&c); err != nil {
+			return err
+		}
+		st, err := recsess.RunReconn(b, tok, dir, c, rec)
+		if err != nil {
+			return err
+		}
+		if sw != nil {
+			_ = sw.Encode(st)
+		}
+	}
+	return nil
+}
+
+func init() {
+	register("events-direct", "random notifications (also rejected ones) applied to a TableCache with recording handlers", cmdEventsDirect)
+}
+
+func cmdEventsDirect(args []string) error {
+	fs := flag.NewFlagSet("events-direct", flag.ExitOnError)
+	name := fs.String("schema", "small", "small|kitchen|random")
+	sseed := fs.Int64("schema-seed", 1, "seed for random schemas")
+	seed := fs.Int64("seed", 1, "seed")
+	n := fs.Int("n", 20, "number of caches")
+	steps := fs.Int("steps", 60, "notifications per cache")
+	out := fs.String("o", "trace.ndjson", "output trace")
+	_ = fs.Parse(args)
+	s, err := abs.NamedSchema(*name, *sseed)
+	if err != nil {
+		return err
+	}
+	b, err := abs.Build(s, true)
+	if err != nil {
+		return err
+	}
+	f, err := os.Create(*out)
+	if err != nil {
+		return err
+	}
+	defer f.Close()
+	w := bufio.NewWriter(f)
+	defer w.Flush()
+	rec := rectxn.NewRecorder(w)
+	for i := 0; i < *n; i++ {
+		if err := recsess.EventsDirect(b, *seed*1000+int64(i), *steps, 1+i%3, rec); err != nil {
+			return err
 		}
 	}
 	return nil
